@@ -115,3 +115,99 @@ pub fn is_encoding_of(d: &[u8], bits: &[bool]) -> Result<(), String> {
     if all.len() != bits.len() { return Err(format!("the accepted string has {} bits before the stop bit, the re-encoding of the result {}", all.len(), bits.len())); }
     match all.iter().zip(bits.iter()).position(|(a, b)| a != b) { Some(i) => Err(format!("bit {} differs", i)), None => Ok(()) }
 }
+
+// ---- slice_header() of 7.3.3 (with 7.3.3.1 - 7.3.3.3), from the public fields of the returned `SliceHeader` and of the
+// ---- activated parameter sets. The header does not keep slice_alpha_c0_offset_div2 / slice_beta_offset_div2, so the
+// ---- re-encoding stops after disable_deblocking_filter_idc and must be a *prefix* of the accepted bits; an empty
+// ---- modification list has two codings (flag 0, or flag 1 + terminator), so up to four variants are returned.
+use h264_reader::nal::slice::*;
+use h264_reader::nal::NalHeader;
+
+fn mods(w: &mut W, ops: &[ModificationOfPicNums], long_form: bool) {
+    if ops.is_empty() && !long_form { w.b(false); return; }
+    w.b(true);
+    for o in ops { match o { ModificationOfPicNums::Subtract(v) => { w.ue(0).ue(*v as u64); } ModificationOfPicNums::Add(v) => { w.ue(1).ue(*v as u64); } ModificationOfPicNums::LongTermRef(v) => { w.ue(2).ue(*v as u64); } } }
+    w.ue(3);
+}
+
+/// `None`: a shape the standard's syntax cannot produce from these values (then nothing is claimed)
+pub fn enc_slice_variants(h: &SliceHeader, sps: &SeqParameterSet, pps: &PicParameterSet, hdr: NalHeader) -> Result<Vec<Vec<bool>>, String> {
+    let fam = match h.slice_type.family { SliceFamily::P => 0u64, SliceFamily::B => 1, SliceFamily::I => 2, SliceFamily::SP => 3, SliceFamily::SI => 4 };
+    let excl = matches!(h.slice_type.exclusive, SliceExclusive::Exclusive);
+    let (is_p, is_b, is_i, is_sp, is_si) = (fam == 0, fam == 1, fam == 2, fam == 3, fam == 4);
+    let mut out = vec![];
+    for variant in 0..4u8 {
+        let (lf0, lf1) = (variant & 1 == 1, variant & 2 == 2);
+        let mut w = W::default();
+        w.ue(h.first_mb_in_slice as u64).ue(fam + if excl { 5 } else { 0 }).ue(pps.pic_parameter_set_id.id() as u64);
+        if sps.chroma_info.separate_colour_plane_flag { w.u(2, match h.colour_plane.as_ref().ok_or("colour_plane absent although the SPS has separate colour planes")? { ColourPlane::Y => 0, ColourPlane::Cb => 1, ColourPlane::Cr => 2 }); }
+        w.u(sps.log2_max_frame_num() as u32, h.frame_num as u64);
+        let field = !matches!(h.field_pic, FieldPic::Frame);
+        if let FrameMbsFlags::Fields { .. } = sps.frame_mbs_flags { match &h.field_pic { FieldPic::Frame => { w.b(false); } FieldPic::Field(Field::Top) => { w.b(true).b(false); } FieldPic::Field(Field::Bottom) => { w.b(true).b(true); } } } else if field { return Err("a field picture although the SPS is frame_mbs_only".into()); }
+        if hdr.nal_unit_type().id() == 5 { w.ue(h.idr_pic_id.ok_or("idr_pic_id absent in an IDR slice")? as u64); }
+        let bottom_coded = pps.bottom_field_pic_order_in_frame_present_flag && !field;
+        match (&sps.pic_order_cnt, h.pic_order_cnt_lsb.as_ref()) {
+            (PicOrderCntType::TypeZero { log2_max_pic_order_cnt_lsb_minus4 }, Some(PicOrderCountLsb::Frame(l))) if !bottom_coded => { w.u(*log2_max_pic_order_cnt_lsb_minus4 as u32 + 4, *l as u64); }
+            (PicOrderCntType::TypeZero { log2_max_pic_order_cnt_lsb_minus4 }, Some(PicOrderCountLsb::FieldsAbsolute { pic_order_cnt_lsb, delta_pic_order_cnt_bottom })) if bottom_coded => { w.u(*log2_max_pic_order_cnt_lsb_minus4 as u32 + 4, *pic_order_cnt_lsb as u64).se(*delta_pic_order_cnt_bottom as i64); }
+            (PicOrderCntType::TypeOne { delta_pic_order_always_zero_flag: false, .. }, Some(PicOrderCountLsb::FieldsDelta(d))) => { w.se(d[0] as i64); if bottom_coded { w.se(d[1] as i64); } else if d[1] != 0 { return Err("delta_pic_order_cnt[1] non-zero although it is not coded".into()); } }
+            (PicOrderCntType::TypeOne { delta_pic_order_always_zero_flag: true, .. }, None) | (PicOrderCntType::TypeTwo, None) => {}
+            // (the library reports the inferred zero deltas of delta_pic_order_always_zero_flag = 1 as FieldsDelta([0, 0]): nothing is coded)
+            (PicOrderCntType::TypeOne { delta_pic_order_always_zero_flag: true, .. }, Some(PicOrderCountLsb::FieldsDelta([0, 0]))) => {}
+            _ => return Err("pic_order_cnt_lsb has a form that the POC type / field flags of the activated parameter sets do not produce".into()),
+        }
+        if pps.redundant_pic_cnt_present_flag { w.ue(h.redundant_pic_cnt.ok_or("redundant_pic_cnt absent although the PPS announces it")? as u64); }
+        if is_b { w.b(h.direct_spatial_mv_pred_flag.ok_or("direct_spatial_mv_pred_flag absent in a B slice")?); }
+        let mut l0 = pps.num_ref_idx_l0_default_active_minus1;
+        if is_p || is_sp || is_b {
+            match h.num_ref_idx_active.as_ref() { None => { w.b(false); }
+                Some(NumRefIdxActive::P { num_ref_idx_l0_active_minus1 }) if !is_b => { w.b(true).ue(*num_ref_idx_l0_active_minus1 as u64); l0 = *num_ref_idx_l0_active_minus1; }
+                Some(NumRefIdxActive::B { num_ref_idx_l0_active_minus1, num_ref_idx_l1_active_minus1 }) if is_b => { w.b(true).ue(*num_ref_idx_l0_active_minus1 as u64).ue(*num_ref_idx_l1_active_minus1 as u64); l0 = *num_ref_idx_l0_active_minus1; }
+                _ => return Err("num_ref_idx_active has the wrong form for the slice type".into()) }
+        }
+        match h.ref_pic_list_modification.as_ref().ok_or("ref_pic_list_modification absent")? {
+            RefPicListModifications::I if is_i || is_si => {}
+            RefPicListModifications::P { ref_pic_list_modification_l0 } if is_p || is_sp => mods(&mut w, ref_pic_list_modification_l0, lf0),
+            RefPicListModifications::B { ref_pic_list_modification_l0, ref_pic_list_modification_l1 } if is_b => { mods(&mut w, ref_pic_list_modification_l0, lf0); mods(&mut w, ref_pic_list_modification_l1, lf1); }
+            _ => return Err("ref_pic_list_modification has the wrong form for the slice type".into()),
+        }
+        let pwt_present = (pps.weighted_pred_flag && (is_p || is_sp)) || (pps.weighted_bipred_idc == 1 && is_b);
+        if pwt_present {
+            if is_b { return Ok(vec![]); }   // (explicit weighted prediction in B slices: the library reports it as unsupported)
+            let t = h.pred_weight_table.as_ref().ok_or("pred_weight_table absent although the PPS and slice type require it")?;
+            let chroma = !sps.chroma_info.separate_colour_plane_flag && !matches!(sps.chroma_info.chroma_format, ChromaFormat::Monochrome);
+            w.ue(t.luma_log2_weight_denom as u64);
+            if chroma { w.ue(t.chroma_log2_weight_denom.ok_or("chroma_log2_weight_denom absent although ChromaArrayType != 0")? as u64); } else if t.chroma_log2_weight_denom.is_some() { return Err("chroma_log2_weight_denom present although ChromaArrayType == 0 (monochrome or separate colour planes)".into()); }
+            if t.luma_weights.len() != l0 as usize + 1 { return Err("number of luma weight entries is not num_ref_idx_l0_active_minus1 + 1".into()); }
+            if chroma && t.chroma_weights.len() != l0 as usize + 1 { return Err("number of chroma weight entries is not num_ref_idx_l0_active_minus1 + 1".into()); }
+            for i in 0..=l0 as usize {
+                match &t.luma_weights[i] { Some(p) => { w.b(true).se(p.weight as i64).se(p.offset as i64); } None => { w.b(false); } }
+                if chroma { let c = &t.chroma_weights[i]; if c.is_empty() { w.b(false); } else if c.len() == 2 { w.b(true); for p in c { w.se(p.weight as i64).se(p.offset as i64); } } else { return Err("a chroma weight entry with a number of components other than 0 or 2".into()); } }
+            }
+        } else if h.pred_weight_table.is_some() { return Err("pred_weight_table present although the PPS / slice type do not call for it".into()); }
+        if hdr.nal_ref_idc() != 0 {
+            match h.dec_ref_pic_marking.as_ref().ok_or("dec_ref_pic_marking absent although nal_ref_idc != 0")? {
+                DecRefPicMarking::Idr { no_output_of_prior_pics_flag, long_term_reference_flag } if hdr.nal_unit_type().id() == 5 => { w.b(*no_output_of_prior_pics_flag).b(*long_term_reference_flag); }
+                DecRefPicMarking::SlidingWindow if hdr.nal_unit_type().id() != 5 => { w.b(false); }
+                DecRefPicMarking::Adaptive(ops) if hdr.nal_unit_type().id() != 5 => { w.b(true);
+                    for o in ops { use MemoryManagementControlOperation::*; match o {
+                        ShortTermUnusedForRef { difference_of_pic_nums_minus1 } => { w.ue(1).ue(*difference_of_pic_nums_minus1 as u64); }
+                        LongTermUnusedForRef { long_term_pic_num } => { w.ue(2).ue(*long_term_pic_num as u64); }
+                        ShortTermUsedForLongTerm { difference_of_pic_nums_minus1, long_term_frame_idx } => { w.ue(3).ue(*difference_of_pic_nums_minus1 as u64).ue(*long_term_frame_idx as u64); }
+                        MaxUsedLongTermFrameRef { max_long_term_frame_idx_plus1 } => { w.ue(4).ue(*max_long_term_frame_idx_plus1 as u64); }
+                        AllRefPicturesUnused => { w.ue(5); }
+                        CurrentUsedForLongTerm { long_term_frame_idx } => { w.ue(6).ue(*long_term_frame_idx as u64); } } }
+                    w.ue(0); }
+                _ => return Err("dec_ref_pic_marking has the wrong form for the NAL type".into()),
+            }
+        } else if h.dec_ref_pic_marking.is_some() { return Err("dec_ref_pic_marking present although nal_ref_idc == 0".into()); }
+        if pps.entropy_coding_mode_flag && !is_i && !is_si { w.ue(h.cabac_init_idc.ok_or("cabac_init_idc absent although CABAC is on and the slice is not I/SI")? as u64); } else if h.cabac_init_idc.is_some() { return Err("cabac_init_idc present although it is not coded".into()); }
+        w.se(h.slice_qp_delta as i64);
+        if is_sp || is_si {
+            if is_sp { w.b(h.sp_for_switch_flag.ok_or("sp_for_switch_flag absent in an SP slice")?); }
+            w.se(h.slice_qs.ok_or("slice_qs absent in an SP/SI slice")? as i64 - 26 - pps.pic_init_qs_minus26 as i64);
+        } else if h.slice_qs.is_some() || h.sp_for_switch_flag.is_some() { return Err("slice_qs / sp_for_switch_flag present in a slice that is not SP/SI".into()); }
+        if pps.deblocking_filter_control_present_flag { w.ue(h.disable_deblocking_filter_idc as u64); } else if h.disable_deblocking_filter_idc != 0 { return Err("disable_deblocking_filter_idc non-zero although the PPS has no deblocking control".into()); }
+        out.push(w.bits);
+    }
+    Ok(out)
+}
